@@ -86,7 +86,26 @@ def oracle_equiv(case):
     dyn = bool(s.get("dynamic"))
     if s.get("batch_size") is not None and False:
         pass
-    compare_fits(label, [named, pre, cal], [(X, None), (X, A), (X, None)], ["named", "precomputed", "callable"])
+    # ... whatever the object (and its parameter dictionary) was used for before: first a fit on other data with another
+    # number of features, then the compared fit
+    import copy
+    warm = cls(**copy.deepcopy(base_kw))
+    s0 = copy.deepcopy(s)
+    s0["d"] = s0["x"]["d"] = s["d"] + 1 + s["random_state"] % 2
+    s0["x"]["xseed"] = s["x"]["xseed"] + 1
+    s0["n"] = s["n"] + s["random_state"] % 3
+    if "groups" in s0:
+        s0["groups"] = None
+    try:
+        quiet(warm.fit, E.build_data(s0))
+    except Exception:
+        warm = cls(**copy.deepcopy(base_kw))
+    compare_fits(label, [named, pre, cal, warm], [(X, None), (X, A), (X, None), (X, None)],
+                 ["named", "precomputed", "callable", "named, used before on data with another number of features"])
+    Aw = np.asarray(warm.get_gemini().compute_affinity(X))
+    if Aw.shape != A.shape or not np.allclose(Aw, A, rtol=1e-12, atol=1e-12 * max(1.0, float(np.max(np.abs(A))))):
+        raise Violation(f"{label}: after fits on two data sets, the affinity of get_gemini() is not scikit-learn's {a['name']} "
+                        f"with parameters {a['params']}")
     # the same through the instance route
     inst_cls = G.MMDGEMINI if key == "kernel" else G.WassersteinGEMINI
     g = named.get_gemini()
@@ -244,7 +263,17 @@ def oracle_kernelrim(case):
         kw = est.get_params(deep=False)
         twin = type(est)(**dict(kw, base_kernel=lambda A, B: pairwise_kernels(A, B, metric=bk["name"], **bk["params"]),
                                 base_kernel_params=None))
-        compare_fits(label, [E.build(s, X)[0], twin], [(X, None), (X, None)], ["named base_kernel", "equivalent callable"])
+        import copy
+        warm = E.build(s, X)[0]
+        s0 = copy.deepcopy(s)
+        s0["d"] = s0["x"]["d"] = s["d"] + 1 + s["random_state"] % 2
+        s0["x"]["xseed"] = s["x"]["xseed"] + 1
+        try:
+            quiet(warm.fit, E.build_data(s0))
+        except Exception:
+            warm = E.build(s, X)[0]
+        compare_fits(label, [E.build(s, X)[0], twin, warm], [(X, None), (X, None), (X, None)],
+                     ["named base_kernel", "equivalent callable", "named base_kernel, fitted before on data with another number of features"])
     return {"nontrivial": bool(bk["params"] or bk["name"] != "linear"), "classes": ["KernelRIM:" + bk["form"] + ":" + bk["name"]]}
 
 
